@@ -246,3 +246,85 @@ class ModeDevice(SimDevice):
             from sim.ledger import ProtocolViolation
             raise ProtocolViolation("heartbeat in mode %x" % self.mode)
         return SimDevice.handle(self, apdu)
+
+
+# ------------------------------------------------------------------ a device swapped behind a reconnect; failing reconnects in uiHeartbeat
+
+@obligation(tier="quick", parts=3, timeout=200, part_names=["ledger", "tcp", "sgx"],
+            bounds="blockchainParameters and blockchainState queried, the device replaced by another one (checkpoint / network / difficulty "
+                   "/ hash bytes symbolic for both), a link error, and the queries repeated after the repair: the second answers are the second "
+                   "device's data; platform classes HSM2Dongle / HSM2DongleTCP / HSM2DongleSGX (partition)",
+            examples=[(0, dict(a=1, b=2, n1=1, n2=3)), (1, dict(a=9, b=9, n1=2, n2=2)), (2, dict(a=0, b=255, n1=3, n2=1))])
+def swapped_device(a: int, b: int, n1: int, n2: int) -> bool:
+    """
+    pre: 0 <= a <= 255 and 0 <= b <= 255
+    pre: 1 <= n1 <= 3 and 1 <= n2 <= 3
+    post: _
+    """
+    from sim.base import raise_fault, FAULT_READ
+    platform = ["ledger", "tcp", "sgx"][part()]
+
+    def device(x, net):
+        d = SimDevice()
+        d.params = [x] + [0x5a] * 31 + [0] * 35 + [x] + [net]
+        d.hashes = {sel: [x] * 32 for (_, sel) in STATE_FIELDS}
+        d.difficulty = [x, 1]
+        return d
+
+    def query(proto):
+        p = handle(proto, valid_request("blockchainParameters"))
+        s = handle(proto, valid_request("blockchainState"))
+        return p, s
+
+    def expect(p, s, x, net):
+        return p[0] == "reply" and p[1].get("errorcode") == 0 and p[1]["parameters"]["checkpoint"] == hexof([x] + [0x5a] * 31) \
+            and p[1]["parameters"]["minimum_difficulty"] == x and p[1]["parameters"]["network"] == NETWORKS[net] \
+            and s[0] == "reply" and s[1].get("errorcode") == 0 and s[1]["state"]["best_block"] == hexof([x] * 32) \
+            and s[1]["state"]["updating"]["total_difficulty"] == x * 256 + 1
+    d1 = device(a, n1)
+    proto, dongle, world = make_stack(d1, platform=platform)
+    p, s = query(proto)
+    if not expect(p, s, a, n1):
+        return False
+    # the device is unplugged and another one is plugged in
+    world.device = device(b, n2)
+    st = {"armed": True}
+
+    def hook(idx, apdu):
+        if st["armed"]:
+            st["armed"] = False
+            raise_fault(FAULT_READ)
+    world.fault_hook = hook
+    if handle(proto, valid_request("blockchainParameters")) != ("reply", {"errorcode": -905}):
+        return False
+    p, s = query(proto)
+    return expect(p, s, b, n2)
+
+
+@obligation(tier="quick", timeout=120,
+            bounds="uiHeartbeat started in signer mode: the reconnection after the first or after the second exit fails (symbolic) - then the "
+                   "reply is a device error, never data",
+            examples=[(0, dict(cfail=1)), (0, dict(cfail=2)), (0, dict(cfail=0))])
+def ui_heartbeat_reconnect_fails(cfail: int) -> bool:
+    """
+    pre: 0 <= cfail <= 2
+    post: _
+    """
+    from sim.base import comm_exception
+    d = SimDevice()
+    d.mode_after_exit = [4, 3]
+    proto, dongle, world = make_stack(d)
+    n = {"c": 0}
+
+    def connect_hook():
+        n["c"] += 1
+        if n["c"] == cfail:
+            d.mode = 2          # the device did not come back as expected
+            raise comm_exception("No dongle found", 0x6F00)
+    world.connect_hook = connect_hook
+    out = handle(proto, valid_request("uiHeartbeat"))
+    if out[0] != "reply":
+        return False
+    if cfail == 0:
+        return out[1].get("errorcode") == 0 and d.mode == 3
+    return out[1] == {"errorcode": -905}
